@@ -3264,6 +3264,18 @@ class StateEngine(object):
                 """
                 event_ids[index] = own_id
 
+            if not error and branch_results.get("terminated"):
+                """
+                This Map or Parallel state has already failed and that failure
+                has been dealt with (failed, retried or caught). A branch that
+                could not be cancelled at the time, e.g. a nested Map or
+                Parallel state whose own branches were still running, has now
+                finished: its result is of no use and must not complete the
+                failed state (with the error of the failed branch as a result).
+                """
+                self.check_pending_results(execution_arn)
+                return
+
             #print("----- asl_state_collect_results -----")
             #print(result)
             
